@@ -284,8 +284,9 @@ class CSVWriter(rbql_engine.RBQLOutputWriter):
                 fields[i] = ''
                 self.none_in_output = True
             elif isinstance(fields[i], list):
-                self.normalize_fields(fields[i])
-                fields[i] = self.sub_array_delim.join(fields[i])
+                sub_fields = list(fields[i]) # Copy: the nested list may be shared with a row of the input table
+                self.normalize_fields(sub_fields)
+                fields[i] = self.sub_array_delim.join(sub_fields)
             else:
                 fields[i] = str(fields[i])
 
